@@ -1,11 +1,13 @@
 #!/usr/bin/env python3
 """C20 — no data races in broker, server, proxy or client under load (DESIGN.md §2.5, §3 C20):
 the SCHED harnesses of the other properties, rebuilt with -race and explored in race mode."""
+import glob
 import os
 import sys
 import time
 
 sys.path.insert(0, os.path.join(os.path.dirname(os.path.abspath(__file__)), "..", "lib"))
+import enumlib  # noqa: E402
 import racelib  # noqa: E402
 import vlib  # noqa: E402
 import broker_common  # noqa: E402
@@ -65,11 +67,34 @@ def main():
             tot_exec += r["executions"]
             tot_trans += r["transitions"]
             exh = exh and r["exhaustive"]
+    # free-running pass (no scheduler): the real-stack harness of C05 tier 2 (Transport.Listen, ServeHTTP, websocketconn,
+    # acceptSessions/acceptStreams, turbotunnelMode with real kcp-go and smux) under the race detector
+    try:
+        files = {"zz_verif_" + os.path.basename(f): f for f in glob.glob(os.path.join(vlib.VERIF, "harness", "serverlib", "*_test.go"))}
+        eb = enumlib.build("serverlib-enum-race", "server/lib", files, race=True)
+        work = os.path.dirname(eb)
+        for f in glob.glob(os.path.join(work, "race-c05t2.*")):
+            os.remove(f)
+        t0 = time.time()
+        res = enumlib.run(eb, "TestVerifEnumC05T2", tier, 60 if q else 240, nshards=8,
+                          env_extra={"GORACE": "halt_on_error=0 exitcode=0 history_size=3 log_path=%s/race-c05t2" % work}, accept_test_failure=True)
+        viol, honly, mx, eng = racelib.collect(work, "c05t2", pattern="race-%s.*")
+        harness_only += honly
+        for k, v in mx.items():
+            mixed[k] = mixed.get(k, 0) + v
+        for sig, text in sorted(viol.items()):
+            rep.finding(sig, text.split("\n")[0], {"harness": "TestVerifEnumC05T2 (free-running, real stack)", "kind": "race detector report", "report": text})
+        passes.append({"label": "real server stack on loopback (C05 tier-2 scenarios: token variants, carrier schedules, bursts of simultaneous sessions), free-running under the race detector",
+                       "executions": res["evaluations"], "transitions": 0, "exhaustive": False, "races_in_snowflake_code": sorted(viol), "wall_s": round(time.time() - t0, 1),
+                       "note": "schedules are whatever the Go runtime produced; the detector reports unordered conflicting accesses of the executions that happened"})
+        tot_exec += res["evaluations"]
+    except vlib.EngineError as e:
+        rep.engine_errors.append(str(e))
     rep.coverage.update({
         "states": max(1, tot_exec), "transitions": max(1, tot_trans), "traces_validated_against_impl": tot_exec,
         "samples": passes[:3] or [{"note": "no pass ran"}], "passes": passes, "exhaustive": exh,
         "reports_with_both_accesses_in_harness_files": harness_only,
-        "reports_with_one_access_in_a_harness_file (not counted; the harness reads results without synchronisation by design)": mixed,
+        "reports_with_one_access_in_a_harness_file_or_a_third_party_module (not counted; the harness reads results without synchronisation by design; third-party stacks are out of scope)": mixed,
         "explanation": "every execution explored by the scheduler runs under Go's happens-before race detector with the scheduler's own hand-offs hidden (RaceDisable brackets), so the program's own synchronisation is all the detector sees; a report counts when both racing accesses are in snowflake (non-harness) source files",
     })
     rep.assumptions += ["races inside third-party stacks (pion, KCP, smux, gorilla) are outside the harnesses", "Check functions are not run in race mode"]
